@@ -817,15 +817,14 @@ class T:
         if self.vcount[key] <= self.MAX_EMIT:
             self.ctx.violation(key, what, detail)
 
-    def judge(self, libname, A, exp, ret, outs, changed, tag):
+    def judge(self, libname, A, exp, ret, outs, changed):
+        """list of (category, what, witness) — empty when the call met the header"""
         bad = []
 
         def flag(cat, what, **kw):
-            key = "%s:%s%s" % (libname, cat, ":" + tag if tag else "")
             d = {"args": {k: (hex(v) if isinstance(v, int) else v) for k, v in A.items()}, "W": self.W}
             d.update({k: (hex(v) if isinstance(v, int) and not isinstance(v, bool) and v >= 0 else v) for k, v in kw.items()})
-            self.violation(key, "%s: %s" % (libname, what), d)
-            bad.append(cat)
+            bad.append((cat, "%s: %s" % (libname, what), d))
         er = exp.get("ret")
         lt = exp.get("_ltret")
         if lt is not None and ret >= lt and (ret - er) % lt == 0:
@@ -869,6 +868,8 @@ class T:
         for x, y in alias:
             if kinds.get(x) != "o" and y in A:
                 A[x] = A[y]
+        if callable(keycls):
+            keycls = keycls(A)
         al = ",".join("%s=%s" % p for p in alias)
         desc = [spec, al, {k: (format(v, "x") if isinstance(v, int) else v) for k, v in A.items()}]
         if not ctx.case(desc, cls):
@@ -881,7 +882,6 @@ class T:
         AA = Args(A)
         AA["bw"], AA["B"] = self.bw, self.B
         exp = ORACLE[spec](AA)
-        tag = ",".join(x for x in (keycls, al) if x)
         res = []
         names = (fname, fname + "_fast") if fname in PAIRS else (fname,)
         for nm in names:
@@ -889,7 +889,7 @@ class T:
                 st, r = self.isolated(nm, spec, A, alias, isolate)
                 if st != "ok":
                     what = {"hang": "does not return within %d s" % isolate}.get(st, "kills the process (%s)" % st)
-                    self.violation("%s:%s%s" % (nm, st.split(":")[0] if st.startswith("died") else st, ":" + tag if tag else ""),
+                    self.violation("%s:%s%s" % (nm, st.split(":")[0] if st.startswith("died") else st, ":" + keycls if keycls else ""),
                                    "%s %s on admissible arguments" % (nm, what),
                                    {"args": desc[2], "W": self.W, "status": st, "stderr": r[:1200]})
                     ctx.digest(st)
@@ -897,7 +897,17 @@ class T:
                 ret, outs, changed = r
             else:
                 ret, outs, changed = self.call(nm, spec, A, alias)
-            self.judge(nm, A, exp, ret, outs, changed, tag)
+            found = self.judge(nm, A, exp, ret, outs, changed)
+            base = ()
+            if found and alias and not isolate:
+                # does the same deviation occur with disjoint buffers?  then aliasing is not part of its signature
+                self.lib.release()
+                base = {c for c, _, _ in self.judge(nm, A, exp, *self.call(nm, spec, A, ()))}
+            for cat, what, det in found:
+                tag = ",".join(x for x in (keycls, al if cat not in base else "") if x)
+                if al:
+                    det["aliasing"] = al
+                self.violation("%s:%s%s" % (nm, cat, ":" + tag if tag else ""), what, det)
             res.append((ret, outs))
             self.lib.release()
         if len(res) == 2:
@@ -906,7 +916,7 @@ class T:
             same = r0 == r1 and all((o0[k] - o1[k]) % (1 << (self.bw * lw[k])) == 0 if k in lw else o0[k] == o1[k]
                                     for k in o0 if exp.get(k) is not None)
             if not same:
-                self.violation("%s:safe-vs-fast%s" % (fname, ":" + tag if tag else ""),
+                self.violation("%s:safe-vs-fast%s" % (fname, ":" + keycls if keycls else ""),
                                "%s and %s_fast disagree" % (fname, fname),
                                {"args": desc[2], "regular": [r0, {k: hex(v) for k, v in o0.items()}],
                                 "fast": [r1, {k: hex(v) for k, v in o1.items()}], "W": self.W})
@@ -1330,7 +1340,7 @@ def gen_zz_add(t, f, n, i):
             b, lp = a * w % top, "b=a*w mod B^n"
         elif s == 2 and n:
             a, b, lp = a >> bw, min((a >> bw) * w, top - 1), "b=a*w"
-        return {"b": b, "a": a, "n": n, "w": w}, "zz_add/" + lp, ("borrow-word>1" if f == "zzSubMulW" and a * w - b > top else None)
+        return {"b": b, "a": a, "n": n, "w": w}, "zz_add/" + lp, ((lambda A: "borrow-word>1" if A["a"] * A["w"] - A["b"] > (1 << (bw * A["n"])) else None) if f == "zzSubMulW" else None)
     if f == "zzMul":
         m = rng.choice(t.lens)
         la, a = val(rng, n, bw)
@@ -1438,6 +1448,7 @@ def gen_zz_div(t, f, n, i):
     lb, b = _divisor(rng, m, bw)
     if n >= m:
         la, a = _dividend(rng, b, n, m, bw)
+        a = min(a, (1 << (bw * n)) - 1)
     else:
         la, a = val(rng, n, bw)
         la = "n<m"
@@ -1556,11 +1567,7 @@ def gen_zz_gcd(t, f, n, i):
             a = b = 0
     elif k == 8 and n and m:
         lab, a, b = "B^n-1", ta - 1, tb - 1
-    keycls = None
-    if f == "zzExGCD":
-        sh = ctz(a | b, 1 << 30)
-        keycls = "min(a,b)/2^s=1" if min(a >> sh, b >> sh) == 1 else None
-    return {"a": a, "n": n, "b": b, "m": m}, "zz_gcd/" + lab, keycls
+    return {"a": a, "n": n, "b": b, "m": m}, "zz_gcd/" + lab, None
 
 
 def unit_zz_gcd(ctx):
@@ -1572,6 +1579,8 @@ def unit_zz_gcd(ctx):
             A, cls, keycls = gen_zz_gcd(t, f, n, i)
             al = t.pick_alias(f, i, lambda al: not al or (A["m"] == A["n"] and cls.endswith("equal")))
             # zzExGCD aborts on an internal ASSERT for many admissible pairs on the current tree: forked child
+            if f == "zzExGCD" and i % 4:
+                continue                 # a forked child per case is expensive: a quarter of the count
             t.drive(f, A, cls, al, keycls, isolate=20 if f == "zzExGCD" else 0)
     t.finish()
 
@@ -1829,7 +1838,8 @@ def unit_zz_pow(ctx):
     t = T(ctx)
     for i in range(ctx.params["per"]):
         A, cls, keycls = gen_zz_pow(t, "zzPowerMod", t.length(i), i)
-        t.drive("zzPowerMod", A, cls, (), keycls)
+        # mod = 1 with b = 0 aborts on an ASSERT on the current tree: forked child for mod = 1
+        t.drive("zzPowerMod", A, cls, (), keycls, isolate=20 if A["mod"] == 1 else 0)
     for i in range(ctx.params["per"] * 4):
         A, cls, keycls = gen_zz_pow(t, "zzPowerModW", 1, i)
         t.drive("zzPowerModW", A, cls, (), keycls)
@@ -1851,11 +1861,11 @@ def unit_probe(ctx):
     which = ctx.params["probe"]
     if which == "zzSqrt-deep":
         # scratch of exactly zzSqrt_deep(n) octets
-        for n in (3, 20):
+        for n in (3,):
             t.drive("zzSqrt", {"a": (1 << (bw * n)) - 1, "n": n}, "probe/declared-deep", (), "declared-deep", spec="zzSqrt@deep")
     elif which == "zzPowerMod-deep":
         # scratch of exactly zzPowerMod_deep(n, m) octets
-        for n, mod in ((1, 7), (4, (1 << (4 * bw)) - 189)):
+        for n, mod in ((1, 7),):
             t.drive("zzPowerMod", {"a": 3, "n": n, "b": 5, "m": 1, "mod": mod}, "probe/declared-deep", (),
                     "declared-deep", spec="zzPowerMod@deep")
     elif which == "wwGetBits-width0":
@@ -1870,7 +1880,7 @@ def unit_probe(ctx):
         A = {"a": 0, "mod": mod, "n": 1}
         if f == "zzDivMod":
             A["divident"] = 3 % mod
-        t.drive(f, A, "probe/a=0", (), "mod=1" if mod == 1 else "a=0", isolate=5)
+        t.drive(f, A, "probe/a=0", (), "mod=1" if mod == 1 else "a=0", isolate=3)
     t.finish()
 
 
@@ -1914,6 +1924,10 @@ def jobs(tier, scale=1.0):
     def add(unit, **p):
         J.append({"unit": "c05_zz:" + unit, "params": p})
     step = 1 if scale >= 1 else max(1, int(round(1 / scale)))
+    for p in PROBES:
+        add("unit_probe", probe=p)
+    for k in range(4):
+        add("unit_zz_gcd", chunk=k, per=N(800, 8000))
     for k in range(4):
         add("unit_u16", chunk=k, chunks=4, step=step, arrays=N(150, 1500))
     for bits in (32, 64):
@@ -1926,13 +1940,9 @@ def jobs(tier, scale=1.0):
     for k in range(4):
         add("unit_zz_div", chunk=k, per=N(3000, 40000))
     for k in range(4):
-        add("unit_zz_gcd", chunk=k, per=N(800, 8000))
-    for k in range(4):
         add("unit_zz_mod", chunk=k, per=N(700, 8000))
     for k in range(4):
         add("unit_zz_red", chunk=k, per=N(2500, 30000))
     for k in range(4):
         add("unit_zz_pow", chunk=k, per=N(500, 5000))
-    for p in PROBES:
-        add("unit_probe", probe=p)
     return J
